@@ -33,10 +33,30 @@ def compile_assumptions(d, schema, value, k):
     return out
 
 
+def verdict_domain(d, k, value, instance):
+    """Sub-domain on which the verdict is claimed (C01 delegates multipleOf with floats to C09's exact
+    sub-domain: operands convert to binary floating point exactly and their quotient is a double, or
+    overflows; integer operands of any size; float instance with integer divisor)."""
+    if k not in ("multipleOf", "divisibleBy"):
+        return None
+    from pyvc import prims
+    x, v = instance.t, value.t
+    nx, nv = smt.num(x), smt.num(v)
+    both_int = z3.And(kind(x) == smt.K_INT, kind(v) == smt.K_INT)
+    conv = z3.And(prims.to_float(nx) == nx, prims.to_float(nv) == nv)
+    return z3.Or(z3.Not(smt.is_kind(x, smt.K_INT, smt.K_FLOAT)), both_int,
+                 z3.And(conv, z3.Or(kind(v) == smt.K_INT, smt.isdouble(nx / nv), prims.fdiv_overflows(nx, nv))))
+
+
 class KeywordTask:
     def __init__(self, root, d, k, fkey, timeout_ms=10000):
         self.root, self.d, self.k, self.fkey, self.timeout_ms = root, d, k, fkey, timeout_ms
         self.name = "%s@draft%d[%s]" % (fkey, d, k)
+        self.weight = {"additionalProperties": 30, "additionalItems": 10, "multipleOf": 10, "divisibleBy": 10,
+                       "enum": 8, "const": 6, "uniqueItems": 5, "dependencies": 4, "type": 4}.get(k, 1)
+
+    def cache_key(self):
+        return "kw|%s|%s" % (self.name, self.timeout_ms)
 
     def setup(self):
         repo = extract.Repo(self.root)
@@ -76,7 +96,7 @@ class KeywordTask:
         ks = z3.StringVal(k)
         pre = [kind(schema.t) == K_DICT, dhas(schema.t, ks), dget(schema.t, ks) == value.t,
                smt.isjson(instance.t), smt.isjson(schema.t),
-               core.WF[d](schema.t), core.meta_eval(repo, d, schema)]
+               core.WF[d](schema.t), core.meta_eval(repo, d, schema, keys=[k] + drafts.siblings(d, k))]
         pre += compile_assumptions(d, schema, value, k)
         st.pc.extend(pre)
         st.unit = unit
@@ -106,8 +126,10 @@ class KeywordTask:
             else:
                 nf += 1
                 emp = seq_empty(cat(*s.out))
-                ob = core.Obligation("%s/F/verdict#%d" % (self.name, nf), "F", s.pc, emp == spec,
-                                     note="empty(result) <=> K_%s" % k)
+                dom = verdict_domain(d, k, value, instance)
+                pcx = s.pc + ([dom] if dom is not None else [])
+                ob = core.Obligation("%s/F/verdict#%d" % (self.name, nf), "F", pcx, emp == spec,
+                                     note="empty(result) <=> K_%s" % k + (" on C09's exact sub-domain" if dom is not None else ""))
                 ob.alt_goal = strengthen_iff(emp, spec)
                 obls.append(ob)
         if nf == 0:
@@ -125,6 +147,13 @@ class KeywordTask:
                 rec["formula"] = str(z3.simplify(ob.goal))[:400]
             res["obligations"].append(rec)
         res["feas_calls"] = ctx.feas_calls
+        if any(o["status"] != "discharged" for o in res["obligations"]):
+            # counterexample search on the real code (bounded, directed at this keyword)
+            from pyvc import driver
+            try:
+                res["search"] = driver.rt_call("pyvc.rt_kw", {"cmd": "search", "root": self.root, "draft": d, "keyword": k, "limit": 3}, self.root)
+            except Exception as e:      # noqa
+                res["search"] = {"error": str(e)[-500:], "failures": []}
 
 
 def strengthen_iff(emp, spec):
